@@ -80,6 +80,13 @@ def iterate_facts(ck, m):
             t = n.targets[0] if isinstance(n, ast.Assign) else n.target
             if isinstance(t, ast.Name):
                 roles[t.id] = "cache"
+    if "cache" not in roles.values():
+        # by use: the local list into which the rendered frame is stored, together with other values, under a subscript
+        fv_ = next((k for k, v in roles.items() if v == "frame"), None)
+        for n in body_walk(itf):
+            if isinstance(n, ast.Assign) and len(n.targets) == 1 and isinstance(n.targets[0], ast.Subscript) and isinstance(n.targets[0].value, ast.Name) \
+                    and isinstance(n.value, ast.Tuple) and n.value.elts and isinstance(n.value.elts[0], ast.Name) and n.value.elts[0].id == fv_ and n.targets[0].value.id not in roles:
+                roles[n.targets[0].value.id] = "cache"
         if isinstance(n, ast.Assign) and norm(n.value) == "render_data[Renderable]":
             for t in n.targets:
                 if isinstance(t, ast.Name):
@@ -296,7 +303,8 @@ def run(ck, m):
               stmt="_iterate: frame = cached entry or None")
 
     # ---- R5 ----------------------------------------------------------------------------
-    ia = m.get(CM, "ImageIterator._animate")
+    from rules.common import animate_facts
+    ia = animate_facts(ck, m)
     st5 = [n for n in body_walk(ia) if isinstance(n, ast.Assign) and isinstance(n.targets[0], ast.Subscript) and norm(n.targets[0]) == "cache[n]"]
     ck.expect(len(st5) >= 2, f"ImageIterator._animate: expected >= 2 cache stores, found {len(st5)}")
     renders = sorted(c.lineno for c in body_walk(ia) if isinstance(c, ast.Call) and norm(c.func) == "image._render_image")
